@@ -746,3 +746,82 @@ Lemma rpm_witness_guarded :
   rpm_check_index rpm_witness = false /\ cost_of (rpm_file rpm_witness) = 0 /\
   log_trusting (snd (rpm_file rpm_witness)) = false.
 Proof. vm_compute. repeat split; reflexivity. Qed.
+
+(* ------------------------------------------------------------------------------------- *)
+(* the packet loop never yields more bytes than it was given: a body is the bytes present  *)
+(* in the input for that packet, whatever the tag (a compressed data packet, tag 8, is     *)
+(* copied like any other body and never inflated)                                          *)
+(* ------------------------------------------------------------------------------------- *)
+Lemma pgp_partial_body_len : forall fuel rem r acc,
+  match pgp_partial_body fuel rem r acc with
+  | ((body, _, r'), _) => lenN body + lenN r' <= lenN r + lenN acc
+  end.
+Proof.
+  induction fuel as [|f IH]; intros rem r acc; cbn [pgp_partial_body].
+  - unfold cret. lia.
+  - split_read rem r chunk r1 S1.
+    2:{ unfold cret. rewrite lenN_app, lenN_nil. lia. }
+    destruct (split_at_some _ _ _ _ S1) as [_ Lc].
+    pose proof (pgp_length_spec r1) as LS.
+    destruct (pgp_read_length r1) as [[[[len partial] r2]|e|e] l].
+    + destruct LS as [_ [L _]]. destruct partial.
+      * specialize (IH len r2 (acc ++ chunk)).
+        destruct (pgp_partial_body f len r2 (acc ++ chunk)) as [[[body ok] r'] l2].
+        rewrite lenN_app in IH. lia.
+      * split_read len r2 lst r3 S2.
+        -- destruct (split_at_some _ _ _ _ S2) as [_ Ll]. rewrite !lenN_app. lia.
+        -- rewrite !lenN_app, lenN_nil. lia.
+    + rewrite lenN_app, lenN_nil. lia.
+    + rewrite lenN_app, lenN_nil. lia.
+Qed.
+
+Lemma pgp_body_len : forall br r,
+  match pgp_read_body br r with ((body, _, r'), _) => lenN body + lenN r' <= lenN r end.
+Proof.
+  intros [n|rem|] r; cbn [pgp_read_body].
+  - split_read n r b r1 Sn; unfold cret.
+    + destruct (split_at_some _ _ _ _ Sn) as [_ L]. lia.
+    + rewrite lenN_nil. lia.
+  - pose proof (pgp_partial_body_len (S (length r)) rem r []) as P.
+    destruct (pgp_partial_body (S (length r)) rem r []) as [[[body ok] r'] l].
+    rewrite lenN_nil in P. lia.
+  - unfold cret. rewrite lenN_nil. lia.
+Qed.
+
+Lemma pgp_next_len : forall r tag body r2 l,
+  pgp_opaque_next r = (Ok (tag, body, r2), l) -> lenN body + lenN r2 + 1 <= lenN r.
+Proof.
+  intros r tag body r2 l H. unfold pgp_opaque_next in H.
+  pose proof (pgp_header_spec r) as HS.
+  destruct (pgp_read_header r) as [[[[tg br] r1]|e|e] lh]; [|discriminate|discriminate].
+  destruct HS as [_ [L _]].
+  rewrite rbind_ok in H. cbn [fst snd] in H.
+  pose proof (pgp_body_len br r1) as BL.
+  destruct (pgp_read_body br r1) as [[[bd ok] r2'] l2].
+  destruct ok; cbn [fst snd] in H; inversion H; subst. lia.
+Qed.
+
+Definition bodies_len (ps : list (N * bytes)) : N := sumN (map (fun p => lenN (snd p)) ps).
+
+Lemma pgp_loop_bodies : forall fuel r,
+  bodies_len (fst (fst (pgp_opaque_loop fuel r))) + lenN (fst (fst (pgp_opaque_loop fuel r))) <= lenN r.
+Proof.
+  induction fuel as [|f IH]; intros r; cbn [pgp_opaque_loop].
+  - unfold cret. cbn. lia.
+  - destruct (pgp_opaque_next r) as [[[[tag body] r1]|e|e] l] eqn:NX.
+    + apply pgp_next_len in NX. specialize (IH r1).
+      destruct (pgp_opaque_loop f r1) as [[ps e] l2]. cbn [fst snd] in *.
+      unfold bodies_len in *. cbn [map sumN snd]. rewrite lenN_cons. lia.
+    + cbn. lia.
+    + cbn. lia.
+Qed.
+
+Lemma pgp_opaque_bodies : forall data,
+  bodies_len (fst (fst (pgp_opaque_all data))) + lenN (fst (fst (pgp_opaque_all data))) <= lenN data.
+Proof. intros. unfold pgp_opaque_all. apply pgp_loop_bodies. Qed.
+
+(* a compressed data packet (tag 8, algorithm 1, DEFLATE stored block "hi"): the loop returns
+   its 8 body bytes as they are *)
+Example pgp_compressed_opaque :
+  fst (pgp_opaque_all [200; 8; 1; 1; 2; 0; 253; 255; 104; 105]) = ([(8, [1; 1; 2; 0; 253; 255; 104; 105])], false).
+Proof. vm_compute. reflexivity. Qed.
